@@ -473,9 +473,7 @@ func (fx *FuncVC) execInstr(fr *frame, instr ssa.Instruction) {
 	case *ssa.ChangeType:
 		fx.setReg(fr, x, fx.retype(fx.val(fr, x.X), x.Type()))
 	case *ssa.MakeInterface:
-		r := fx.fresh("iface", SInt)
-		fx.assume(Lt(IntC(0), r, true))
-		fx.setReg(fr, x, Sc{r, x.Type()})
+		fx.setReg(fr, x, fx.makeIface(fx.val(fr, x.X), x.X.Type(), x.Type()))
 	case *ssa.ChangeInterface:
 		fx.setReg(fr, x, fx.retype(fx.val(fr, x.X), x.Type()))
 	case *ssa.Field:
@@ -555,7 +553,7 @@ func (fx *FuncVC) execInstr(fr *frame, instr ssa.Instruction) {
 	case *ssa.Next:
 		fx.execNext(fr, x)
 	case *ssa.TypeAssert:
-		panic(unsupported("type assertion"))
+		fx.setReg(fr, x, fx.typeAssert(fx.val(fr, x.X), x.AssertedType, x.CommaOk, x.Pos()))
 	default:
 		panic(unsupported("instruction %T: %s", instr, instr))
 	}
@@ -564,7 +562,7 @@ func (fx *FuncVC) execInstr(fr *frame, instr ssa.Instruction) {
 func (fx *FuncVC) execAlloc(fr *frame, x *ssa.Alloc) {
 	elem := x.Type().(*types.Pointer).Elem()
 	if arr, ok := under(elem).(*types.Array); ok {
-		if _, scalar := fx.scalarSort(elem); !scalar || x.Comment == "varargs" || x.Comment == "slicelit" || x.Comment == "makeslice" {
+		if _, scalar := fx.scalarSort(elem); !scalar || x.Comment == "varargs" || x.Comment == "slicelit" || x.Comment == "makeslice" || isSliced(x) {
 			// backing array of a slice: lives in the element heap
 			base := fx.allocArray(arr.Elem(), x.Comment)
 			fr.regs[x] = PtrV{Kind: pkElem, Base: base, Idx: fx.idx(-1), Root: arr.Elem(), Typ: x.Type(), Path: nil, Cell: &Cell{Typ: elem, Name: "$array"}}
